@@ -1,9 +1,83 @@
 import PyamgV.Driver.Util
-/-! Driver ops of extension task E27 (op names prefixed `ext_`). -/
+import PyamgV.Model.ExtSpmm
+/-! Driver ops of extension task E27 (op names prefixed `ext_`): the CSR algebra of `Model/ExtSpmm.lean`
+over the Gaussian rationals.
+
+Matrix tokens (`<M>`; index lists and value lists comma separated, `-` = empty, values `re|im` or rational):
+`csr:<rows>:<cols>:<indptr>:<indices>:<data>`, `csc:<rows>:<cols>:<indptr>:<row indices>:<data>`,
+`coo:<rows>:<cols>:<row>:<col>:<data>`, `dense:<rows>:<cols>:<row-major data>`,
+`bsr:<rows>:<cols>:<br>:<bc>:<indptr>:<indices>:<data, block after block, row-major>`.
+A CSR reply `<csr>` is `<rows>:<cols>:<indptr>:<indices>:<data>`; `<dense>` is the row-major dense meaning.
+
+* `ext_convert <M>`: the conversion to CSR (`cooToCsr`, `cscToCsr`, `denseToCsr`, `bsrToCsr`; `csr` is
+  returned as it is); reply `<csr>;<dense>`, `error:<why>` when the arrays are not well formed
+* `ext_spmm mul <A> <B>`: `A @ B` (operands converted to CSR first); reply `<csr>;<dense>`
+* `ext_spmm galerkin <R> <A> <P>`: `R @ A @ P`; reply `<csr>;<dense>`
+* `ext_spmm transpose <A>`: reply `<csr of transpose>;<csr of transposeArr>;<dense>`
+* `ext_spmm conjT <A>`: `A.T.conjugate()` in CSR; reply `<csr>;<dense>`
+* `ext_spmm sumdup <A>`: `sum_duplicates()`; reply `<csr>;<dense>` -/
 namespace PyamgV.Drv.ExtE27
-open PyamgV PyamgV.Drv
+open PyamgV PyamgV.Drv PyamgV.Spmm
+
+def showCsr (A : Csr CRat) : String :=
+  s!"{A.rows}:{A.cols}:{showNats A.ap}:{showNats A.aj}:{showCRats A.ax}"
+
+def showBoth (A : Csr CRat) : String := showCsr A ++ ";" ++ showCRats (toDenseC A)
+
+def parseInput (s : String) : Option (Input CRat) :=
+  match s.splitOn ":" with
+  | ["csr", r, c, ap, aj, ax] => do
+    let r ← r.toNat?; let c ← c.toNat?
+    some (.csr ⟨r, c, parseNats ap, parseNats aj, parseCRats ax⟩)
+  | ["csc", r, c, ap, ai, ax] => do
+    let r ← r.toNat?; let c ← c.toNat?
+    some (.csc ⟨r, c, parseNats ap, parseNats ai, parseCRats ax⟩)
+  | ["coo", r, c, ri, ci, x] => do
+    let r ← r.toNat?; let c ← c.toNat?
+    some (.coo ⟨r, c, parseNats ri, parseNats ci, parseCRats x⟩)
+  | ["dense", r, c, x] => do
+    let r ← r.toNat?; let c ← c.toNat?
+    some (.dense ⟨r, c, parseCRats x⟩)
+  | ["bsr", r, c, br, bc, ap, aj, ax] => do
+    let r ← r.toNat?; let c ← c.toNat?; let br ← br.toNat?; let bc ← bc.toNat?
+    some (.bsr ⟨r, c, br, bc, parseNats ap, parseNats aj, parseCRats ax⟩)
+  | _ => none
+
+/-- parse, reject what is not well formed (`Input.wf`), convert to CSR (`Input.toCsr`) -/
+def toCsr (s : String) : Except String (Csr CRat) :=
+  match parseInput s with
+  | none => .error "error:parse"
+  | some X => if X.wf then .ok (toCsrC X) else .error "error:not-well-formed"
 
 def handle : List String → Option String
+  | ["ext_convert", m] =>
+    some <| match toCsr m with
+      | .ok A => showBoth A
+      | .error e => e
+  | ["ext_spmm", "mul", a, b] =>
+    some <| match toCsr a, toCsr b with
+      | .ok A, .ok B => if A.cols = B.rows then showBoth (mulC A B) else "error:dims"
+      | .error e, _ => e
+      | _, .error e => e
+  | ["ext_spmm", "galerkin", r, a, p] =>
+    some <| match toCsr r, toCsr a, toCsr p with
+      | .ok R, .ok A, .ok P =>
+        if R.cols = A.rows ∧ A.cols = P.rows then showBoth (galerkinC R A P) else "error:dims"
+      | .error e, _, _ => e
+      | _, .error e, _ => e
+      | _, _, .error e => e
+  | ["ext_spmm", "transpose", a] =>
+    some <| match toCsr a with
+      | .ok A => showCsr (transposeC A) ++ ";" ++ showCsr (transposeArrC A) ++ ";" ++ showCRats (toDenseC (transposeC A))
+      | .error e => e
+  | ["ext_spmm", "conjT", a] =>
+    some <| match toCsr a with
+      | .ok A => showBoth (conjTC A)
+      | .error e => e
+  | ["ext_spmm", "sumdup", a] =>
+    some <| match toCsr a with
+      | .ok A => showBoth (sumDuplicatesC A)
+      | .error e => e
   | _ => none
 
 end PyamgV.Drv.ExtE27
